@@ -1,36 +1,45 @@
-import CalicoVerif.Proofs.C11Asm
-import CalicoVerif.Proofs.C11Split
-import CalicoVerif.Proofs.C11Eval
+import CalicoVerif.Proofs.C11Whole
+import CalicoVerif.Proofs.C11Range
 /-!
 C11 — BPF policy programs reach the same verdict as the policy semantics.
 
-Staged as DESIGN §6 says.  What is proved here (all for EVERY input of the
-stated shape, no sampling):
+Staged as DESIGN §6 says.  What is proved (every theorem is for ALL inputs of
+the stated shape; no sampling):
 
-* `assemble_sound_all` — the assembler model (`asm.Block`: dead-code dropping,
-  eager forward label resolution, int16 range check) preserves the label-level
-  semantics of ANY event list: running the assembled instructions with the
-  instruction-level interpreter equals the label-level run.
-* `expand_noSplit_all` — without `WithPolicyMapIndexAndStride` and below the
-  trampoline stride, the builder produces ONE block containing exactly its plain
-  events (no split, no trampolines).
-* `tiers_verdict_partial`, `profiles_verdict_partial` — the compositional proof
-  rule → policy → tier (and → profiles): the events `writeTiers`/`writeProfiles`
-  emit, run from any state satisfying the builder's register invariant, continue
-  at the allow label / the deny label / fall through exactly as the REFERENCE
-  (`evalTiers`, `evalProfiles`) says — for every tier/policy/profile layout, all
-  rule ids, both destination legs, actions allow/deny/pass/next-tier.
+* `polprog_verdict_partial` — **whole program, IPv4, not split**: for every
+  `Rules` configuration whose rules have allow/deny/pass/next-tier actions and
+  API-valid criteria (`ProgOK`), every packet state and every IP-set
+  environment, the instructions the builder model emits (the very list that is
+  compared slot by slot with the real builder's `asm.Insns`), run by the eBPF
+  interpreter from the program entry, end exactly as the REFERENCE verdict
+  demands: tail call through the static jump map to the allow / deny index with
+  `pol_rc` = 1 / 2, or (failed tail call) exit with TC_ACT_SHOT / XDP_DROP and
+  `pol_rc` = 10 / 2, or XDP_PASS for untracked policy that neither allows nor
+  denies.  Covers: all match criteria and their negations (protocol, CIDRs,
+  IP sets incl. the byte-exact LPM key on the stack, numeric and named ports,
+  ICMP type/code), tiers, pass, end-of-tier actions, profiles, pre-DNAT /
+  apply-on-forward / normal host policy, host flags, XDP.
+* `lrun_program_partial` — the same statement on the label-level semantics.
+* `rule_guard` — the match part of ANY valid rule is a guard for the reference
+  `ruleMatch` (discharges the former `RuleGuarded` hypothesis).
+* `tiers_verdict`, `profiles_verdict` — rule → policy → tier / profiles, now
+  without the `RuleGuarded` hypothesis.
+* `assemble_sound_all` — the assembler model preserves the label-level
+  semantics of ANY event list; `asm_jumps_in_range` — every jump it resolves
+  is forward, ≤ 32767 and stays inside the program; `expand_noSplit_all` — no
+  split, no trampolines ⇒ one block of exactly the builder's plain events.
 
-`_partial` because: (1) the per-rule match fragments enter through the
-hypothesis `RuleGuarded` (each fragment is a guard for the reference
-`ruleMatch`), discharged here only for rules without criteria (end-of-tier
-rule); (2) `log` actions and flow-log rule-hit recording (`record`) are
-excluded; (3) header/footer/host-flag straight-line code, program splitting and
-IPv6 are not yet covered by theorems (they ARE covered by the instruction-exact
-tie and by the interpreter-vs-reference oracle on every generated packet).
+`_partial` because not yet covered by theorems (they ARE covered by the
+instruction-exact tie and by the interpreter-vs-reference oracle on every
+generated packet): `log` actions and flow-log rule-hit recording (`record`),
+program splitting, IPv6, a failing state-map lookup; and `compile_total`
+(validity ⇒ no panic and `Assemble` succeeds: all labels defined, distances in
+range) is not proved yet — `polprog_verdict_partial` takes the successful build
+as a hypothesis, shown satisfiable by the example at the end.
 
 Two places where the full statement is FALSE of the current code are recorded
-with witnesses: `profile_log_panics` and `proto_name_mismatch`.
+with witnesses: `profile_log_panics` and `proto_name_mismatch` (the latter is
+exactly the `ProtoOK` side condition of `ProgOK`).
 -/
 namespace CalicoVerif.C11
 
@@ -40,94 +49,125 @@ theorem assemble_sound_all (env : Env) (evs : List Ev) (prog : List Insn) (m : M
     execL env prog m = lrun env evs m :=
   assemble_sound env evs prog m ha hnf
 
--- non-vacuity: a two-instruction program with a forward jump over dead code assembles and runs
+-- non-vacuity: a program with a forward jump over dead code assembles (and the dead code is dropped)
 example : assemble [jump .exit, movImm64 R0 7, .label .exit, movImm64 R0 2, exitI] =
     some [⟨opJumpA, 0, 0, 0, 0⟩, ⟨opMovImm64, 0, 0, 0, 2⟩, ⟨opExit, 0, 0, 0, 0⟩] := by decide
+
+/-- Every jump the assembler resolves is forward, in int16 range and inside the program. -/
+theorem asm_jumps_in_range (evs : List Ev) (prog : List Insn) (hp : InsPlain evs) (ha : assemble evs = some prog) :
+    JumpsOK prog :=
+  asm_jumps_ok evs none [] [] prog hp ha
 
 /-- No splitting, no trampolines: one block with exactly the plain events. -/
 theorem expand_noSplit_all (c : Cfg) (xdp : Bool) (bevs : List BEv) (h : c.policyMapStride = 0)
     (hlen : (flat bevs).length < c.trampolineStride) : expand c xdp bevs = [flat bevs] :=
   expand_noSplit c xdp bevs h hlen
 
-/-- Every rule of the tiers has a plain action and a guarded match part. -/
-def TiersPlain (env : Env) (st : List Byte) (p : Pkt) (ts : List Tier) : Prop :=
-  ∀ t ∈ ts, ∀ pol ∈ t.policies, ∀ r ∈ pol.rules, r.plainAction = true ∧ RuleGuarded env st p r
+/-- The match part of any API-valid rule is a guard for the reference `ruleMatch`
+(IPv4; `SetCtx`: full-size state value, IPv4 program, IP-set map FD ≠ state map FD). -/
+theorem rule_guard (env : Env) (st : List Byte) (hc : SetCtx env st) (rid : Nat) (r : Rule) (destLeg : Leg)
+    (hok : RuleOK r) :
+    Guard env st (.ruleNoMatch rid) (flat (ruleMatches env.c rid r destLeg)) (ruleMatch env (pktOfD st) destLeg r) :=
+  (ruleMatches_guard env st hc rid r destLeg hok).1
 
-def ProfilesPlain (env : Env) (st : List Byte) (p : Pkt) (ps : List Policy) : Prop :=
-  ∀ pol ∈ ps, ∀ r ∈ pol.rules, r.plainAction = true ∧ RuleGuarded env st p r
+/-- rule → policy → tier: `writeTiers` decides what the reference `evalTiers` decides. -/
+theorem tiers_verdict (env : Env) (st : List Byte) (hc : SetCtx env st) (leg : Leg) (al : Label)
+    (ts : List Tier) (rid tid : Nat) (hrec : env.c.record = false) (hal : isAllowLabel al) (hts : TiersGood ts) :
+    Decides env st (flat (writeTiers env.c leg al ts rid tid).1) (tiersDec al (evalTiers env (pktOfD st) leg ts)) :=
+  (tiers_block env st (pktOfD st) leg al ts rid tid hrec hal (hts.plain hc)).1
 
-/-- The two allow labels the builder uses. -/
-def isAllowLabel (l : Label) : Prop := l = .allow ∨ l = .allowedByHostPolicy
+/-- profiles: `writeProfiles` decides what the reference `evalProfiles` (pass ⇒ deny) decides. -/
+theorem profiles_verdict (env : Env) (st : List Byte) (hc : SetCtx env st) (al : Label)
+    (ps : List Policy) (noMatchID rid : Nat) (hrec : env.c.record = false) (hal : isAllowLabel al)
+    (hps : ProfsGood ps) :
+    Decides env st (flat (writeProfiles env.c al ps noMatchID rid).1)
+      (profDec al (evalProfiles true env (pktOfD st) ps)) :=
+  (profiles_block env st (pktOfD st) al ps noMatchID rid hrec hal (hps.plain hc)).1
 
-theorem tierLabel_props {al : Label} (hal : isAllowLabel al) (tid : Nat) (r : Rule) (h : r.plainAction = true) :
-    tierActionLabel al tid r.action ≠ .log ∧ (tierActionLabel al tid r.action).isRule = false := by
-  rw [tierActionLabel_actOf]
-  unfold Rule.plainAction at h
-  rcases hal with rfl | rfl <;> cases ha : actOf r.action <;> simp [ha, Label.isRule] at h ⊢
+/-- Whole program on the label-level semantics. -/
+theorem lrun_program_partial (env : Env) (st : List Byte) (r : Rules) (hok : ProgOK env st r)
+    (hs : env.stateOK = true) :
+    ∃ o, (lrun env (flat (compile env.c r)) (Mach.init st)).obs = some o ∧
+      (expectedObs env r.forXDP (verdict env r (pktOfD st))).agrees o = true :=
+  lrun_program env st r hok hs
 
-theorem profileLabel_props {al : Label} (hal : isAllowLabel al) (r : Rule) (h : r.plainAction = true) :
-    profileActionLabel al r.action ≠ .log ∧ (profileActionLabel al r.action).isRule = false := by
-  unfold Rule.plainAction at h
-  have hl : actOf r.action ≠ .log := by intro e; simp [e] at h
-  rw [profileActionLabel_actOf al r.action hl]
-  rcases hal with rfl | rfl <;> cases ha : actOf r.action <;> simp [ha, Label.isRule] at h ⊢
+/-- **Whole program, assembled instructions** (IPv4, not split): running the
+instructions `Builder.Instructions` returns ends as the reference verdict demands. -/
+theorem polprog_verdict_partial (env : Env) (st : List Byte) (r : Rules) (hok : ProgOK env st r)
+    (hs : env.stateOK = true) (hnosplit : env.c.policyMapStride = 0)
+    (hshort : (flat (compile env.c r)).length < env.c.trampolineStride)
+    (prog : List Insn) (hi : instructions env.c r = some (some [prog])) :
+    ∃ o, (execL env prog (Mach.init st)).obs = some o ∧
+      (expectedObs env r.forXDP (verdict env r (pktOfD st))).agrees o = true := by
+  have hasm : assemble (flat (compile env.c r)) = some prog := by
+    unfold instructions at hi
+    split at hi
+    · cases hi
+    · rw [expand_noSplit env.c r.forXDP (compile env.c r) hnosplit hshort] at hi
+      simp only [List.mapM_cons, List.mapM_nil, Option.some.injEq] at hi
+      cases ha : assemble (flat (compile env.c r)) with
+      | none => simp [ha] at hi
+      | some p => simp [ha] at hi; rw [hi]
+  obtain ⟨o, ho, hag⟩ := lrun_program env st r hok hs
+  have hnf : (lrun env (flat (compile env.c r)) (Mach.init st)).isFault = false := by
+    cases hl : lrun env (flat (compile env.c r)) (Mach.init st) with
+    | fault => rw [hl] at ho; simp [Outcome.obs] at ho
+    | «exit» _ _ => rfl
+    | tail _ _ _ => rfl
+  rw [assemble_sound env _ prog _ hasm hnf]
+  exact ⟨o, ho, hag⟩
 
-/-- **rule → policy → tier.**  The events of `writeTiers`, from any state
-satisfying the builder's invariant, continue at the allow label, at `deny`, or
-fall through, exactly as the reference `evalTiers` decides. -/
-theorem tiers_verdict_partial (env : Env) (st : List Byte) (p : Pkt) (leg : Leg) (al : Label)
-    (ts : List Tier) (rid tid : Nat)
-    (hrec : env.c.record = false) (hal : isAllowLabel al) (hts : TiersPlain env st p ts) :
-    Decides env st (flat (writeTiers env.c leg al ts rid tid).1) (tiersDec al (evalTiers env p leg ts)) := by
-  have hr : al.isRule = false := by rcases hal with rfl | rfl <;> rfl
-  have ht : al.isTierEnd = false := by rcases hal with rfl | rfl <;> rfl
-  have hok : TiersOK env st p al ts := by
-    intro t htm tid' pol hp r hr'
-    obtain ⟨h1, h2⟩ := hts t htm pol hp r hr'
-    obtain ⟨a, b⟩ := tierLabel_props hal tid' r h1
-    exact ⟨a, b, h2⟩
-  have := (writeTiers_decides (env := env) (st := st) (p := p) leg al hrec hr ht ts rid tid hok).1
-  rw [tiersTarget_eval env p leg al ht ts tid (fun t htm pol hp r hr' => (hts t htm pol hp r hr').1)] at this
-  exact this
+-- non-vacuity of `ProgOK`: a workload endpoint with one tier (allow TCP from 10.0.0.0/8 to port 80 in set 7) and a profile
+def exRule1 : Rule :=
+  { action := "allow", protocol := some (Proto.name "tcp"), srcNet := [{ v6 := false, addr := 167772160, pfx := 8 }],
+    dstPorts := [{ first := 80, last := 80 }], dstIpSetIds := [7] }
+def exRule2 : Rule := { action := "deny" }
+def exRules : Rules :=
+  { tiers := [{ endAction := EndAction.deny, endRuleID := 1, policies := [{ rules := [exRule1] }] }],
+    profiles := [{ rules := [exRule2] }] }
 
-/-- **profiles.**  The events of `writeProfiles` continue at the allow label or
-at `deny` as the reference `evalProfiles` (with `pass` ⇒ deny) decides; they
-never fall through. -/
-theorem profiles_verdict_partial (env : Env) (st : List Byte) (p : Pkt) (al : Label)
-    (ps : List Policy) (noMatchID rid : Nat)
-    (hrec : env.c.record = false) (hal : isAllowLabel al) (hps : ProfilesPlain env st p ps) :
-    Decides env st (flat (writeProfiles env.c al ps noMatchID rid).1) (profDec al (evalProfiles true env p ps)) := by
-  have hok : PoliciesOK env st p (profileActionLabel al) ps := by
-    intro pol hp r hr'
-    obtain ⟨h1, h2⟩ := hps pol hp r hr'
-    obtain ⟨a, b⟩ := profileLabel_props hal r h1
-    exact ⟨a, b, h2⟩
-  have hP := writePolicies_decides (env := env) (st := st) (p := p) (profileActionLabel al) .dest hrec ps rid hok
-  have hE := writeRule_decides (env := env) (st := st) (p := p)
-    (writePolicies env.c (profileActionLabel al) .dest ps rid).2
-    { action := "", matchID := noMatchID } .deny .dest hrec (by simp) rfl (emptyRule_guarded env st p noMatchID)
-  have hElab := writeRule_labels (env := env) (st := st) (p := p)
-    (writePolicies env.c (profileActionLabel al) .dest ps rid).2
-    { action := "", matchID := noMatchID } .deny .dest hrec (by simp) (emptyRule_guarded env st p noMatchID)
-  have hEt : ruleTarget env p .dest { action := "", matchID := noMatchID } .deny = some .deny := by
-    simp [ruleTarget, filterRule, filterNets, ruleMatch, icmpIs]
-  rw [hEt] at hE
-  have := Decides.seq hP.1 hE (by
-    intro l hl hmem
-    have hr := hElab l hmem
-    have := policiesTarget_not_rule (env := env) (p := p) (leg := .dest) ps
-      (fun pol hp r hr' => (hok pol hp r hr').2.1) l hl
-    rw [this] at hr; cases hr)
-  rw [profilesTarget_eval env p al ps (fun pol hp r hr' => (hps pol hp r hr').1)] at this
-  simpa only [writeProfiles, flat_append] using this
+example (env : Env) (st : List Byte) (hc : SetCtx env st) (hrec : env.c.record = false) : ProgOK env st exRules := by
+  have hr1 : RuleOK exRule1 := by
+    refine ⟨?_, ?_, ?_, ?_⟩
+    · intro pr h
+      simp [exRule1] at h
+      subst h
+      exact ⟨6, by decide, by decide, by decide⟩
+    · intro pr h; simp [exRule1] at h
+    · intro id h; simp [Rule.ipSetIDs, exRule1] at h; subst h; decide
+    · intro pr h; simp [exRule1] at h; subst h; exact ⟨by decide, by decide, by decide⟩
+  have hr2 : RuleOK exRule2 := by
+    refine ⟨?_, ?_, ?_, ?_⟩
+    · intro pr h; simp [exRule2] at h
+    · intro pr h; simp [exRule2] at h
+    · intro id h; simp [Rule.ipSetIDs, exRule2] at h
+    · intro pr h; simp [exRule2] at h
+  refine ⟨hc, hrec, ?_, ?_, ?_, ?_, ?_, ?_⟩
+  · intro t ht pol hp rule hr
+    simp [exRules] at ht; subst ht; simp at hp; subst hp; simp at hr; subst hr
+    exact ⟨by decide, hr1⟩
+  · intro t ht; simp [exRules] at ht
+  · intro t ht; simp [exRules] at ht
+  · intro t ht; simp [exRules] at ht
+  · intro pol hp rule hr
+    simp [exRules] at hp; subst hp; simp at hr; subst hr
+    exact ⟨by decide, hr2⟩
+  · intro pol hp; simp [exRules] at hp
 
--- non-vacuity of the hypotheses: a tier whose only policy has no rules (so the end-of-tier rule decides)
-example (env : Env) (st : List Byte) (p : Pkt) :
-    TiersPlain env st p [{ endAction := .pass, endRuleID := 1, policies := [⟨[]⟩] }] := by
-  intro t ht pol hp r hr
-  simp at ht; subst ht
-  simp at hp; subst hp
-  simp at hr
+-- `SetCtx` is inhabited (distinct map FDs, a full-size state value)
+def exCfg : Cfg := { ipSetMapFD := 11, stateMapFD := 12, staticJumpMapFD := 13, policyJumpMapFD := 14,
+                     useJmps := true, allowJmp := 5, denyJmp := 9 }
+example : SetCtx { c := exCfg } (List.replicate 512 0) :=
+  ⟨List.length_replicate, rfl, by decide⟩
+
+-- the build hypothesis of `polprog_verdict_partial` is satisfiable: `exRules` compiles to ONE program
+example : (match instructions exCfg exRules with
+    | some (some [_]) => true
+    | _ => false) = true := by decide +kernel
+
+-- ... short of the trampoline stride and without splitting
+example : exCfg.policyMapStride = 0 ∧ (flat (compile exCfg exRules)).length < exCfg.trampolineStride := by
+  decide +kernel
 
 /-! ### Where the full statement is false of the current code -/
 
